@@ -119,7 +119,7 @@ def generate(rng):
         if rng.chance(0.3):
             init = {"BrownianStock": [1.1], "HestonStock": [1.1, 0.05], "RoughBergomiStock": [1.1, 0.05]}.get(pkind, [1.1])
         oname = rng.choice(["SGD", "Adam", "Adadelta", "SGDm"])
-        ops.append({"op": "fit", "n_epochs": rng.choice([0, 1, 2, 2, 3]), "n_paths": rng.choice([1, 2, 3, 6]), "n_times": rng.choice([1, 1, 2, 3]),
+        ops.append({"op": "fit", "n_epochs": rng.choice([0, 1, 2, 2, 3]), "n_paths": rng.npaths([1, 2, 3, 6]), "n_times": rng.choice([1, 1, 2, 3]),
                     "validation": rng.chance(0.7), "optimizer": oname, "as_instance": rng.chance(0.4),
                     "instance_params": rng.choice(["model", "hedger"]), "init_state": init, "hedge": hedge,
                     "ambient": rng.choice([None, None, "no_grad", "enable_grad"]), "torch_seed": rng.seed31(),
